@@ -21,6 +21,13 @@ Proof.
     now rewrite <- !app_assoc.
 Qed.
 
+Lemma pb_int16 v : pb (PInt16 v) = be 2 v. Proof. reflexivity. Qed.
+Lemma pb_int32 v : pb (PInt32 v) = be 4 v. Proof. reflexivity. Qed.
+Lemma pb_int64 v : pb (PInt64 v) = be 8 v. Proof. reflexivity. Qed.
+Lemma pb_arraylen v : pb (PArrayLength v) = be 4 v. Proof. reflexivity. Qed.
+Ltac pbs := rewrite ?pb_int16, ?pb_int32, ?pb_int64, ?pb_arraylen.
+Ltac pbs_in H := rewrite ?pb_int16, ?pb_int32, ?pb_int64, ?pb_arraylen in H.
+
 (* aborted transactions *)
 Lemma aborted_total l : Forall total (aborted_prims l).
 Proof. induction l as [|[p o] r IH]; cbn [aborted_prims]; repeat constructor; auto with total. Qed.
@@ -94,7 +101,7 @@ Proof.
     rewrite len_app in Hrem. pose proof (len_nonneg tb).
     replace (remaining d <=? 0) with false by (symmetry; apply Z.leb_gt; lia).
     rewrite E1. cbn [records_partial records_count records_overflow norm_batch b_partial b_records olist].
-    rewrite map_length. fold (len (olist (b_records b))).
+    replace (len (map norm_record (olist (b_records b)))) with (len (olist (b_records b))) by (unfold len; now rewrite map_length).
     replace (0 <? len (olist (b_records b))) with true by (symmetry; apply Z.ltb_lt; lia). cbn [orb andb].
     assert (Hat1 : at_ d1 (tb ++ [])).
     { rewrite app_nil_r. destruct Hat as (pre & suf & Hr & Ho). exists (pre ++ bb), suf. split; [rewrite R1, Hr, <- !app_assoc; reflexivity | rewrite O1, Ho, len_app; reflexivity]. }
@@ -137,6 +144,7 @@ Proof.
   assert (Hfit : len (pbytes (fblock_header v b)) + 4 + len sb + len rest <= len (raw d)).
   { destruct Hat as (pre & suf & Hr & _). rewrite Hr, !len_app, len_be. pose proof (len_nonneg pre). pose proof (len_nonneg suf). change (Z.of_nat 4) with 4. lia. }
   pose proof (len_nonneg sb). pose proof (len_nonneg rest). pose proof (len_nonneg ab). unfold MAXLEN, MAX_ARRAY in *.
+  assert (Hsb31 : len sb < 2147483648) by (pose proof (len_nonneg (pbytes (fblock_header v b))); lia).
   unfold fblock_decode. unfold fblock_header in *. rewrite !pbytes_app in *. cbn [pbytes] in Hat, Hfit. unfold pb at 1 2 in Hat. cbn [real_prim] in Hat.
   rewrite <- !app_assoc in Hat. cbn [app] in Hat.
   pose proof (get_int16_rt _ d _ Herr Hat) as G. step G.
@@ -146,61 +154,50 @@ Proof.
   assert (M01 : moved d d0 10 0) by (eapply moved_eq; [eapply moved_trans; [exact M | exact M0] | reflexivity | reflexivity]).
   clear E E0 M M0 Hat Hat1 d1.
   (* the version-dependent middle part: returns the state after it *)
-  assert (Mid : exists dm nmid,
-     (if 4 <=? v then
-        let* (lso, d) := get_int64 d0 in
-        let* (ls, d) := (if 5 <=? v then get_int64 d else Ok 0 d) in
-        let* (nt, d) := get_array_length d in
-        let d := if 0 <=? nt then alloc d (PTR * nt) else d in
-        let* (abl, d) := aborted_decode (if 0 <=? nt then Z.to_nat nt else O) d in
-        Ok (lso, ls, if 0 <=? nt then Some abl else None) d
-      else Ok (0, 0, None) d0) =
+  match goal with |- exists _, bind ?X _ = _ /\ _ => assert (Mid : exists dm nmid, X =
      Ok (if 4 <=? v then fb_lso b else 0, if 5 <=? v then fb_log_start b else 0, if 4 <=? v then Some ab else None) dm /\
      raw dm = raw d0 /\ off dm = off d0 + nmid /\
-     nmid = len (pbytes (if 4 <=? v then [PInt64 (fb_lso b)] ++ (if 5 <=? v then [PInt64 (fb_log_start b)] else []) ++ [PArrayLength (len ab)] ++ aborted_prims ab else []))).
+     nmid = len (pbytes (if 4 <=? v then [PInt64 (fb_lso b)] ++ (if 5 <=? v then [PInt64 (fb_log_start b)] else []) ++ [PArrayLength (len ab)] ++ aborted_prims ab else []))) end.
   { destruct (4 <=? v) eqn:E4.
-    - cbn [app] in Hat2. rewrite !pbytes_app in Hat2. cbn [pbytes] in Hat2. unfold pb at 1 in Hat2. cbn [real_prim] in Hat2. rewrite <- !app_assoc in Hat2.
+    - fold ab in Hat2. cbn [pbytes] in Hat2. rewrite pbytes_app in Hat2. cbn [pbytes] in Hat2. pbs_in Hat2. rewrite <- !app_assoc in Hat2.
       pose proof (get_int64_rt _ d0 _ Hlso Hat2) as G. step G.
       match type of Hat2 with at_ _ (_ ++ ?tl) => assert (Hat3 : at_ d1 tl) by (eapply at_moved; [exact Hat2 | rewrite len_be; exact M]) end.
       assert (Mid5 : exists d5 n5, (if 5 <=? v then get_int64 d1 else Ok 0 d1) = Ok (if 5 <=? v then fb_log_start b else 0) d5 /\
                      moved d1 d5 n5 0 /\ n5 = len (pbytes (if 5 <=? v then [PInt64 (fb_log_start b)] else [])) /\
-                     at_ d5 (pbytes ([PArrayLength (len ab)] ++ aborted_prims ab) ++ pbytes (if 11 <=? v then [PInt32 (fb_replica b)] else []) ++ be 4 (len sb) ++ sb ++ rest)).
+                     at_ d5 (be 4 (len ab) ++ pbytes (aborted_prims ab) ++ pbytes (if 11 <=? v then [PInt32 (fb_replica b)] else []) ++ be 4 (len sb) ++ sb ++ rest)).
       { destruct (5 <=? v).
-        - cbn [pbytes app] in Hat3. unfold pb at 1 in Hat3. cbn [real_prim] in Hat3. rewrite <- !app_assoc in Hat3. cbn [app] in Hat3.
-          pose proof (get_int64_rt _ d1 _ Hls Hat3) as G. destruct G as (d5 & E5 & M5). exists d5, 8. repeat split; try assumption.
-          + cbn. reflexivity.
-          + eapply at_moved; [exact Hat3 | rewrite len_be; exact M5].
-        - exists d1, 0. repeat split; try reflexivity; [apply moved_refl | exact Hat3]. }
+        - cbn [pbytes app] in Hat3. pbs_in Hat3. rewrite <- !app_assoc in Hat3. cbn [app] in Hat3.
+          pose proof (get_int64_rt _ d1 _ Hls Hat3) as G. destruct G as (d5 & E5 & M5). exists d5, 8.
+          split; [exact E5 | split; [exact M5 | split; [reflexivity | eapply at_moved; [exact Hat3 | rewrite len_be; exact M5]]]].
+        - exists d1, 0. split; [reflexivity | split; [apply moved_refl | split; [reflexivity | cbn [pbytes app] in Hat3; exact Hat3]]]. }
       destruct Mid5 as (d5 & n5 & E5 & M5 & Hn5 & Hat5). rewrite E5. cbn [bind].
-      rewrite pbytes_app in Hat5. cbn [pbytes] in Hat5. unfold pb at 1 in Hat5. cbn [real_prim] in Hat5. rewrite <- !app_assoc in Hat5. cbn [app] in Hat5.
-      pose proof (at_remaining _ _ Hat5) as Hrem5. rewrite !len_app, len_be, aborted_len in Hrem5.
+      pose proof (at_remaining _ _ Hat5) as Hrem5. rewrite !len_app, !len_be, aborted_len in Hrem5.
       pose proof (len_nonneg (pbytes (if 11 <=? v then [PInt32 (fb_replica b)] else []))).
       change (Z.of_nat 4) with 4 in Hrem5.
       pose proof (get_array_length_rt (len ab) d5 _ ltac:(unfold MAX_ARRAY; lia) ltac:(lia) Hat5) as G. step G.
       replace (0 <=? len ab) with true by (symmetry; apply Z.leb_le; lia). rewrite to_nat_len.
       assert (Hat6 : at_ (alloc d2 (PTR * len ab)) (pbytes (aborted_prims ab) ++ pbytes (if 11 <=? v then [PInt32 (fb_replica b)] else []) ++ be 4 (len sb) ++ sb ++ rest))
-        by (eapply at_moved; [exact Hat5 | rewrite len_be; apply (moved_eq _ _ 4 0); [|reflexivity | reflexivity]; destruct M0 as (A1 & A2 & A3 & A4); unfold moved; cbn; repeat split; try assumption; lia]).
+        by (destruct M0 as (A1 & A2 & _); eapply at_shift; [exact Hat5 | cbn [raw alloc]; exact A1 | cbn [off alloc]; rewrite len_be; exact A2]).
       pose proof (aborted_rt ab _ _ Hab Hat6) as G. step G.
       exists d3. eexists. split; [reflexivity|].
       destruct M as (A1 & A2 & _), M5 as (B1 & B2 & _), M0 as (C1 & C2 & _), M1 as (D1 & D2 & _). cbn [raw off alloc] in D1, D2.
       split; [congruence|]. split; [|reflexivity].
-      rewrite !pbytes_app. cbn [pbytes]. unfold pb at 1 3. cbn [real_prim]. rewrite !len_app, !len_be, aborted_len, <- Hn5.
-      change (len (@nil Z)) with 0. change (Z.of_nat 8) with 8. change (Z.of_nat 4) with 4. lia.
-    - exists d0, 0. repeat split; try reflexivity. lia. }
+      cbn [pbytes app]. rewrite !pbytes_app. cbn [pbytes]. pbs. rewrite !len_app, !len_be, aborted_len, <- Hn5.
+      change (len (@nil Z)) with 0. change (Z.of_nat 8) with 8. change (Z.of_nat 4) with 4. clear - A2 B2 C2 D2. lia.
+    - replace (5 <=? v) with false by (symmetry; apply Z.leb_gt; apply Z.leb_gt in E4; lia).
+      exists d0, 0. split; [reflexivity | split; [reflexivity | split; [lia | reflexivity]]]. }
   destruct Mid as (dm & nmid & Emid & Rm & Om & Hnmid). rewrite Emid. cbn [bind].
   (* replica, size, subset *)
   assert (Hatm : at_ dm (pbytes (if 11 <=? v then [PInt32 (fb_replica b)] else []) ++ be 4 (len sb) ++ sb ++ rest)).
-  { destruct Hat2 as (pre & suf & Hr & Ho). rewrite <- !app_assoc in Hr.
-    exists (pre ++ pbytes (if 4 <=? v then [PInt64 (fb_lso b)] ++ (if 5 <=? v then [PInt64 (fb_log_start b)] else []) ++ [PArrayLength (len ab)] ++ aborted_prims ab else [])), suf.
-    split; [rewrite Rm, Hr, <- !app_assoc; reflexivity | rewrite Om, Ho, len_app, Hnmid; reflexivity]. }
+  { eapply at_shift; [exact Hat2 | exact Rm | rewrite Om, Hnmid; reflexivity]. }
   assert (Rep : exists dr nr, (if 11 <=? v then get_int32 dm else Ok (-1) dm) = Ok (if 11 <=? v then fb_replica b else -1) dr /\
                  raw dr = raw dm /\ off dr = off dm + nr /\ nr = len (pbytes (if 11 <=? v then [PInt32 (fb_replica b)] else [])) /\
                  at_ dr (be 4 (len sb) ++ sb ++ rest) /\ mem dr = mem dm).
   { destruct (11 <=? v).
     - cbn [pbytes] in Hatm. unfold pb in Hatm. cbn [real_prim] in Hatm. rewrite <- !app_assoc in Hatm. cbn [app] in Hatm.
       pose proof (get_int32_rt _ dm _ Hrep Hatm) as G. destruct G as (dr & Er & Mr). exists dr, 4. pose proof Mr as (A1 & A2 & A3 & _).
-      repeat split; try assumption; try lia; [cbn; reflexivity | eapply at_moved; [exact Hatm | rewrite len_be; exact Mr]].
-    - exists dm, 0. repeat split; try reflexivity; [lia | exact Hatm]. }
+      split; [exact Er | split; [exact A1 | split; [exact A2 | split; [reflexivity | split; [eapply at_moved; [exact Hatm | rewrite len_be; exact Mr] | lia]]]]].
+    - exists dm, 0. split; [reflexivity | split; [reflexivity | split; [lia | split; [reflexivity | split; [exact Hatm | reflexivity]]]]]. }
   destruct Rep as (dr & nr & Er & Rr & Or & Hnr & Hatr & _). rewrite Er. cbn [bind].
   pose proof (get_int32_rt (len sb) dr _ ltac:(unfold in_i32; lia) Hatr) as G. step G.
   assert (Hats : at_ d1 (sb ++ rest)) by (eapply at_moved; [exact Hatr | rewrite len_be; exact M]).
@@ -220,7 +217,8 @@ Proof.
   rewrite El. eexists. split; [reflexivity|].
   destruct M01 as (A1 & A2 & _), M as (B1 & B2 & _), M0 as (C1 & C2 & _). unfold set_mem. cbn [raw off].
   split; [congruence|]. rewrite C2, B2, Or, Om, A2, Hnr, Hnmid, !len_app, len_be. cbn [pbytes]. unfold pb at 1 2. cbn [real_prim].
-  rewrite !len_app, !len_be. change (len (@nil Z)) with 0. change (Z.of_nat 2) with 2. change (Z.of_nat 8) with 8. change (Z.of_nat 4) with 4. lia.
+  rewrite !len_app, !len_be. change (len (@nil Z)) with 0. change (Z.of_nat 2) with 2. change (Z.of_nat 8) with 8. change (Z.of_nat 4) with 4.
+  unfold ab. lia.
 Qed.
 
 (* re-encoding the decoded block writes the same bytes: the deprecated Records field is not written, the batches
